@@ -617,6 +617,9 @@ func phase1(r *rng, emit func(cdoc)) {
 		}
 		if ki.ext { // the prefix of a vendor extension is matched whatever its case
 			emit(cdoc{kind: kind, doc: withMember(base, "X-Foo", jNum("1")), nf: true, phase: 1, tags: []string{"phase1", "single", "ext", "ext-uppercase"}})
+			// object-valued: on a responses object every member that is not a lower-case x- key is first read as a response
+			emit(cdoc{kind: kind, doc: withMember(base, "X-Rate-Limit", mustJV(`{"a":[1,{"b":null}],"description":"d"}`)), nf: true, phase: 1, tags: []string{"phase1", "single", "ext", "ext-uppercase", "ext-object"}})
+			emit(cdoc{kind: kind, doc: withMember(base, "x-rate-limit", mustJV(`{"a":[1,{"b":null}],"description":"d"}`)), nf: true, phase: 1, tags: []string{"phase1", "single", "ext", "ext-object"}})
 		}
 		for _, kw := range ki.kws { // a required string may be empty
 			if kw.ft.class == "str" && isRequired(ki, kw.name) {
